@@ -128,8 +128,7 @@ def runChain (st : St) (f0 : Nat) (hops : List Hop) : String :=
         let m : Manifest := ((st.contracts.find? (·.1 == h.id)).map (·.2)).getD ⟨[], []⟩
         let t : Target := ⟨h.id, m, h.method, h.safe⟩
         -- ContractManagement's storage holds the caller's deployed manifest (nothing was updated in this execution)
-        let stored : Option Manifest := match s.stack with | cur :: _ => cur.manifest | [] => none
-        let s' := step (Params.realAt st.hf) s (.call sc false (CallFlags.ofNat h.rq) t stored)
+        let s' := step (Params.realAt st.hf) s (.call sc false (CallFlags.ofNat h.rq) t)
         if s'.halted then
           match s.stack with
           | cur :: _ => (if cur.flags.has sc.req then "fault:perm " else "fault:flags ") ++ toString entered.length
@@ -138,7 +137,8 @@ def runChain (st : St) (f0 : Nat) (hops : List Hop) : String :=
           match s'.stack with
           | child :: _ => go s' rest (child.flags.toNat :: entered)
           | [] => "bad"
-    go (State.init (Frame.entry (CallFlags.ofNat f0) none)) hops []
+    -- ContractManagement's storage holds every declared contract's deployed manifest
+    go (State.init (Frame.entry (CallFlags.ofNat f0) none) st.contracts) hops []
 
 def step' (st : St) (ws : List String) : St × String :=
   match ws with
@@ -209,8 +209,8 @@ def step' (st : St) (ws : List String) : St × String :=
     match f0.toNat?, rid.toNat?, cid.toNat?, syscallPrim st.hf "System.Contract.Call", syscallPrim st.hf "System.Runtime.LoadScript" with
     | some f0, some rid, some cid, some sc, some ls =>
       let man (id : Nat) : Manifest := ((st.contracts.find? (·.1 == id)).map (·.2)).getD ⟨[], []⟩
-      let prog : List Instr := [.call sc false CallFlags.all ⟨rid, man rid, "dyn", false⟩ none, .loadScript ls CallFlags.all,
-                                .call sc false CallFlags.all ⟨cid, man cid, method, sf == "1"⟩ none]
+      let prog : List Instr := [.call sc false CallFlags.all ⟨rid, man rid, "dyn", false⟩, .loadScript ls CallFlags.all,
+                                .call sc false CallFlags.all ⟨cid, man cid, method, sf == "1"⟩]
       -- run instruction by instruction to know where it stopped and why
       let rec go (s : State) (is : List Instr) (n : Nat) : String :=
         match is with
@@ -260,8 +260,8 @@ def step' (st : St) (ws : List String) : St × String :=
     | some rid, some cid, some sc =>
       let man (id : Nat) : Manifest := ((st.contracts.find? (·.1 == id)).map (·.2)).getD ⟨[], []⟩
       let P := Params.realAt st.hf
-      let s1 := step P (State.init (Frame.entry CallFlags.all none)) (.call sc false CallFlags.all ⟨rid, man rid, "ta", false⟩ none)
-      let s2 := step P s1 (.call (callTPrim st.hf) true CallFlags.all ⟨cid, man cid, method, sf == "1"⟩ (some (man rid)))
+      let s1 := step P (State.init (Frame.entry CallFlags.all none) st.contracts) (.call sc false CallFlags.all ⟨rid, man rid, "ta", false⟩)
+      let s2 := step P s1 (.call (callTPrim st.hf) true CallFlags.all ⟨cid, man cid, method, sf == "1"⟩)
       if s2.halted then
         match s1.stack with
         | cur :: _ => (st, if cur.flags.has (callTPrim st.hf).req then "fault:perm" else "fault:flags")
@@ -276,15 +276,15 @@ def step' (st : St) (ws : List String) : St × String :=
     | some rid, some cid, some sc, some np =>
       let man (id : Nat) : Manifest := ((st.contracts.find? (·.1 == id)).map (·.2)).getD ⟨[], []⟩
       let P := Params.realAt st.hf
-      -- entry → caller.upd/des → ContractManagement.update/destroy (id 1000) → back → callee.method; after the
-      -- management call the stored manifest of the caller is the new one (or gone)
-      let stored : Option Manifest := np.map (fun ps => ⟨(man rid).groups, ps⟩)
+      -- entry → caller.upd/des → ContractManagement (id 1000) → its update/destroy native changes the storage for its
+      -- caller → back → callee.method: the machine itself knows what is stored for the caller by then
       let prog : List Instr := [
-        .call sc false CallFlags.all ⟨rid, man rid, "upd", false⟩ none,
-        .call sc false CallFlags.all ⟨1000, ⟨[], []⟩, "update", false⟩ (some (man rid)),
+        .call sc false CallFlags.all ⟨rid, man rid, "upd", false⟩,
+        .call sc false CallFlags.all ⟨1000, ⟨[], []⟩, "update", false⟩,
+        (match np with | some ps => .update ⟨(man rid).groups, ps⟩ | none => .destroy),
         .ret,
-        .call sc false CallFlags.all ⟨cid, man cid, method, sf == "1"⟩ stored]
-      let s := run P (State.init (Frame.entry CallFlags.all none)) prog
+        .call sc false CallFlags.all ⟨cid, man cid, method, sf == "1"⟩]
+      let s := run P (State.init (Frame.entry CallFlags.all none) st.contracts) prog
       (st, if s.halted then "fault:perm" else "halt")
     | _, _, _, _ => (st, "bad-op")
   | "mvalid" :: _ | "mvalidsz" :: _ | "mitem" :: _ | "mcancall" :: _ => (st, (ManIO.step ws).getD "bad-op")
